@@ -259,7 +259,7 @@ def subspaces(tier, seed):
     sp.append(K_("slices-f8-n0to3", AF2 if q else AF, 0, 3, "f8", "slice", splits="T12",
                  kernels=SEL if q else None, seed=seed))
     # slice masks on chunked value lists (every composition): the slice cuts the chunked array as a whole
-    sp.append(K_(f"slices-chunked-values-f8-n{3 if q else 4}", AF2, 3 if q else 4, 3 if q else 4, "f8", "slice",
+    sp.append(K_("slices-chunked-values-f8-n3", AF2, 3, 3, "f8", "slice",
                  splits="all", kernels=("sum", "first") if q else SEL, steps=(None, -1) if q else (None, -1, 2),
                  seed=seed))
     sp.append(K_("stepped-slices-f8-n1to2", AF2, 1, 2 if q else 3, "f8", "slice", splits="T12",
